@@ -54,6 +54,11 @@ impl<R: Read + Seek> ReadBox<&mut R> for DinfBox {
                     "dinf box contains a box with a larger size than it",
                 ));
             }
+            if s == 0 {
+                return Err(Error::InvalidData(
+                    "dinf box contains a box with size 0",
+                ));
+            }
 
             match name {
                 BoxType::DrefBox => {
@@ -164,6 +169,11 @@ impl<R: Read + Seek> ReadBox<&mut R> for DrefBox {
             if s > size {
                 return Err(Error::InvalidData(
                     "dinf box contains a box with a larger size than it",
+                ));
+            }
+            if s == 0 {
+                return Err(Error::InvalidData(
+                    "dinf box contains a box with size 0",
                 ));
             }
 
